@@ -71,9 +71,12 @@ Definition boxeq2 (rs : list (list Z)) (lit : list (Z * Z)) : bool :=
   leqb2 (fun (r : list Z) (lh : Z * Z) => leqb Z.eqb r (zrange (fst lh) (snd lh))) rs lit.
 (* one correspondence case.  path1d: which array layout; kind/obs: what the implementation did;
    code_ok: the implementation's answer equals the brute-force oracle (then a model that raises is only
-   pessimistic); box: exact integer bounds computed by the harness mirror; spts: stored points (or None) *)
+   pessimistic); region: the input lies where the model is proved to violate the property (1-D layout with a
+   negative or no lattice vector), an implementation that satisfies the property there is accepted; loose: a fractional coordinate lies exactly on a boundary, so that the float box of the
+   implementation may differ from the exact one: AssertFail / EmptyConcat (both: nothing in the sphere) are
+   not distinguished then; box: exact integer bounds computed by the harness mirror; spts: stored points (or None) *)
 Definition chk (path1d : bool) (A B : list qv) (wrap : bool) (pts : list qv) (wts : list bigQ) (c : qv) (r : bigQ)
-               (kind : Z) (obs : list qitem) (code_ok : bool) (box : option (list (Z * Z)))
+               (kind : Z) (loose : bool) (obs : list qitem) (code_ok region : bool) (box : option (list (Z * Z)))
                (spts : option (list qv)) : bool :=
   let m := (if path1d then local1d else local) QOps 0%bigQ (exact_ball QOps) A B wrap pts wts c r in
   let g := build QOps A B wrap pts in
@@ -84,7 +87,7 @@ Definition chk (path1d : bool) (A B : list qv) (wrap : bool) (pts : list qv) (wt
                         else ranges QOps B g c r) lit
   end &&
   match spts with None => true | Some l => leqb veq (map fst g) l end &&
-  (((kind_of m =? kind)%Z && leqb ieq (isort (items m)) (isort obs)) || (code_ok && negb (is_ok m))).
+  ((((kind_of m =? kind)%Z || (loose && ((kind_of m =? 1) || (kind_of m =? 2)) && ((kind =? 1) || (kind =? 2)))%Z) && leqb ieq (isort (items m)) (isort obs)) || (code_ok && (negb (is_ok m) || region))).
 """
 
 
@@ -222,7 +225,8 @@ def run_impl(case: Case):
         out["box"] = shim.boxes[0] if len(shim.boxes) == 1 else None
         return out
     out["box"] = shim.boxes[0] if len(shim.boxes) == 1 else None
-    P = np.array(lg.points, dtype=float).reshape(len(lg.weights), -1)
+    nloc = len(lg.weights)
+    P = np.array(lg.points, dtype=float).reshape(nloc, -1) if nloc else np.zeros((0, case.M))
     idx = np.array(lg.indices).reshape(-1)
     items = []
     for k in range(len(idx)):
@@ -240,18 +244,25 @@ def exc_kind(exc):
         return 1
     if name == "ValueError" and where == "get_localgrid" and "concatenate" in msg:
         return 2
-    if name == "ValueError" and where == "__init__" and "broadcast" in msg:
+    if name == "ValueError" and where == "__init__":   # (N,)*(0,): broadcast error, or empty reduction when N == 1
         return 3
     return None
 
 
 def exc_obs(exc):
     name, where, msg = exc
-    tag = "concatenate" if "concatenate" in msg else ("broadcast" if "broadcast" in msg else "")
+    tag = "concatenate" if "concatenate" in msg else ""
     return f"{name}@{where}" + (f"({tag})" if tag else "")
 
 
 # ----------------------------------------------------------------------------------------------- oracle
+def oracle_box(case: Case):
+    """|j_k| = |b_k . (v + c - p)| <= |b_k| (r + |c - p|): half-widths of a box containing every image in the sphere."""
+    Bx = recip(case.A)  # for the size of the search box only
+    far = max(math.sqrt(float(sum((pi - ci) ** 2 for pi, ci in zip(pad3(p), pad3(case.c))))) for p in case.pts)
+    return [int(math.sqrt(float(fdot(b, b))) * (float(case.r) + far)) + 2 for b in Bx]
+
+
 def oracle(case: Case):
     """Brute force: all (i, j) with |p_i + sum_k j_k a_k - c| <= r, j in a safely large box.
     Integer arithmetic on coordinates scaled by SCALE.  Returns (sorted items, list of (i, j))."""
@@ -271,9 +282,7 @@ def oracle(case: Case):
     if r8.denominator != 1:
         raise ValueError("radius not on the 1/8 grid")
     r8 = int(r8)
-    Bx = recip(case.A)  # for the size of the search box only
-    far = max(math.sqrt(float(sum((pi - ci) ** 2 for pi, ci in zip(pad3(p), pad3(case.c))))) for p in case.pts)
-    L = [int(math.sqrt(float(fdot(b, b))) * (float(case.r) + far)) + 2 for b in Bx]
+    L = oracle_box(case)
     grids = np.meshgrid(*[np.arange(-l, l + 1, dtype=np.int64) for l in L], indexing="ij") if case.K else []
     J = np.stack([gr.reshape(-1) for gr in grids], axis=1) if case.K else np.zeros((1, 0), dtype=np.int64)
     T = J @ A  # (nj, 3) scaled translations
@@ -395,6 +404,17 @@ def unit_ball(K):
 
 
 def rand_case(rng, big=False):
+    """Rejection: keep the brute-force image box enumerable."""
+    while True:
+        case = rand_case0(rng, big)
+        n = 1
+        for l in oracle_box(case):
+            n *= 2 * l + 1
+        if n * len(case.pts) <= 1_500_000:
+            return case
+
+
+def rand_case0(rng, big=False):
     M = rng.choice([1, 1, 2, 2, 2, 3, 3, 3])
     path1d = M == 1 and rng.random() < 0.5
     K = rng.randint(0, M)
@@ -412,7 +432,7 @@ def rand_case(rng, big=False):
             pts.append(p)
     wts = [Fr(3 * i + 1, 8) * (-1 if i % 3 == 2 else 1) for i in range(N)]
     c = [Fr(rng.randint(-32, 32), 4) for _ in range(M)]
-    if rng.random() < 0.5:  # centre near a point -> populated spheres
+    if rng.random() < 0.65:  # centre near a point -> populated spheres
         p = rng.choice(pts)
         c = [x + Fr(rng.randint(-6, 6), 4) for x in p]
     # radius: aim at a given number of lattice images per point
@@ -473,8 +493,9 @@ def items_lit(items):
     return "[" + "; ".join(f"({i}%nat, {qvec(p)}, {q_bigq(w)})" for i, p, w in items) + "]"
 
 
-def coq_case(case: Case, impl, code_ok: bool, box, with_spts):
+def coq_case(case: Case, impl, code_ok: bool, box, with_spts, loose=False):
     kind = 0 if impl["kind"] == "ok" else (exc_kind(impl["exc"]) or 9)
+    region = case.path1d and (case.K == 0 or case.A[0][0] < 0)
     boxs = "None" if box is None else "Some [" + "; ".join(f"({z(a)}, {z(b)})" for a, b in box) + "]"
     spts = "None"
     if with_spts is not None:
@@ -482,7 +503,7 @@ def coq_case(case: Case, impl, code_ok: bool, box, with_spts):
     B = case.B if case.B is not None else []
     return (f"chk {'true' if case.path1d else 'false'} {qlist(case.A)} {qlist(B)} {'true' if case.wrap else 'false'} "
             f"{qlist(case.pts)} [{'; '.join(q_bigq(w) for w in case.wts)}] {qvec(case.c)} {q_bigq(case.r)} "
-            f"{z(kind)} {items_lit(impl['items'])} {'true' if code_ok else 'false'} ({boxs}) ({spts})")
+            f"{z(kind)} {'true' if loose else 'false'} {items_lit(impl['items'])} {'true' if code_ok else 'false'} {'true' if region else 'false'} ({boxs}) ({spts})")
 
 
 def classify(case: Case, impl, orc):
@@ -593,7 +614,7 @@ def run(ctx: Ctx):
     validate_ball(ctx, rng, 300 if ctx.quick else 3000)
 
     # ---------------- cases
-    n_rand = 420 if ctx.quick else 4200
+    n_rand = 1200 if ctx.quick else 12000
     cases = [(None, None, w[2], w) for w in witnesses()] + [(None, None, c, None) for c in fixed_cases()]
     for k in range(n_rand):
         cases.append((None, None, rand_case(rng, big=(not ctx.quick and k % 7 == 0)), None))
@@ -614,13 +635,15 @@ def run(ctx: Ctx):
         validate_hypotheses(ctx, case, impl, nfail)
         box = ties = None
         spts = None
+        loose = False
         if case.B is not None and not (case.path1d and case.K == 0):
             box, ties, shifts, fr = exact_box(case)
             # stored points: exact comparison unless a fractional coordinate sits exactly on a cell boundary
-            if impl["spts"] is not None:
-                raw = [[fdot(b, p) for b in case.B] for p in case.pts]
-                if not (case.wrap and any(x.denominator == 1 for f in raw for x in f)):
-                    spts = [[Fr(float(x)) for x in row] for row in impl["spts"]]
+            raw = [[fdot(b, p) for b in case.B] for p in case.pts]
+            wrap_tie = case.wrap and any(x.denominator == 1 for f in raw for x in f)
+            loose = bool(wrap_tie or any(ties))
+            if impl["spts"] is not None and not wrap_tie:
+                spts = [[Fr(float(x)) for x in row] for row in impl["spts"]]
             # coverage: is the outermost needed displacement on the edge of the enumerated box?
             if orc:
                 stats["nonempty"] += 1
@@ -631,7 +654,7 @@ def run(ctx: Ctx):
                     stats["edge_hi"] += 1
             # observed box of the implementation vs the exact mirror (information + tie of the formula)
             if impl["box"] is not None and len(impl["box"]) == case.K and case.K:
-                if any(ties):
+                if loose:
                     stats["box_tie"] += 1
                 else:
                     stats["box_cmp"] += 1
@@ -641,7 +664,7 @@ def run(ctx: Ctx):
                         stats["box_wider"] += 1
                     else:
                         stats["box_narrower"] += 1
-        exprs.append(coq_case(case, impl, code_ok, box, spts))
+        exprs.append(coq_case(case, impl, code_ok, box, spts, loose))
         cls = None if code_ok else defect_class(case, impl, orc)
         meta.append((case, impl, orc, verdict, cls, wit))
         if len(ctx.samples) < 6 and orc and case.K:
@@ -683,7 +706,7 @@ def run(ctx: Ctx):
         ctx.notes.append(f"{stats['box_wider']} cases: the implementation enumerates a larger integer box than the model (harmless for the property)")
 
     # ---------------- search: oracle sweep without Coq (cheap, many more inputs)
-    n_sweep = 2500 if ctx.quick else 40000
+    n_sweep = 8000 if ctx.quick else 120000
     found = 0
     for k in range(n_sweep):
         case = rand_case(rng, big=(k % 5 == 0))
